@@ -227,9 +227,18 @@ class MaybeEncodingError(Exception):
     safely sent through the socket."""
 
     def __init__(self, exc, value):
-        self.exc = repr(exc)
-        self.value = repr(value)
+        self.exc = self._repr(exc)
+        self.value = self._repr(value)
         super().__init__(self.exc, self.value)
+
+    @staticmethod
+    def _repr(obj):
+        # this runs in the worker's error path: a value that cannot even
+        # be shown must not take the worker down with the job unreported.
+        try:
+            return repr(obj)
+        except Exception:
+            return '<unprintable %s object>' % type(obj).__name__
 
     def __reduce__(self):
         # exc and value are text already: going through __init__ again
